@@ -205,12 +205,27 @@ type Reply struct {
 type failWriter struct {
 	*httptest.ResponseRecorder
 	failAt, n int
+	// afterBytes > 0: the connection accepts that many bytes in total, then every write fails (partial last write)
+	afterBytes, written int
 }
 
 var ErrWriteFailed = fmt.Errorf("injected response-writer failure")
 
 func (f *failWriter) Write(b []byte) (int, error) {
 	f.n++
+	if f.afterBytes > 0 {
+		room := f.afterBytes - f.written
+		if room <= 0 {
+			return 0, ErrWriteFailed
+		}
+		if len(b) <= room {
+			f.written += len(b)
+			return f.ResponseRecorder.Write(b)
+		}
+		f.written += room
+		f.ResponseRecorder.Write(b[:room])
+		return room, ErrWriteFailed
+	}
 	if f.n >= f.failAt {
 		return 0, ErrWriteFailed
 	}
@@ -220,12 +235,16 @@ func (f *failWriter) Write(b []byte) (int, error) {
 // Do runs one request through the real router with panic capture.
 func (w *World) Do(req *http.Request) *Reply { return w.DoFail(req, 0) }
 
-// DoFail is Do with a ResponseWriter whose failAt-th Write call fails (0 = never).
+// DoFail is Do with a ResponseWriter whose failAt-th Write call fails (0 = never); failAt < 0: the writer accepts
+// -failAt bytes in total and then fails (a partial write).
 func (w *World) DoFail(req *http.Request, failAt int) *Reply {
 	rec := httptest.NewRecorder()
 	var rw http.ResponseWriter = rec
 	if failAt > 0 {
 		rw = &failWriter{ResponseRecorder: rec, failAt: failAt}
+	}
+	if failAt < 0 {
+		rw = &failWriter{ResponseRecorder: rec, afterBytes: -failAt} // negative: fail after that many bytes
 	}
 	before := w.Store.CallCount()
 	spawnedBefore := vhook.GoSpawned.Load()
